@@ -99,6 +99,8 @@ Inductive op :=
 | ORemoveTable (t u : nat)
 | OIntersect (t u : nat)
 | ODestroy (t : nat)
+| OMoveCtor (t u : nat)        (* tab[t] = new T(std::move(tab[u])) *)
+| OPrealloc (t : nat) (n : N)  (* tab[t] = new T(PreallocatedItemSlotsCount(n)) *)
 (* iterators *)
 | OIterNew (i t : nat) (bw : bool)
 | OIterAt (i t : nat) (k : Z) (bw : bool)
@@ -526,7 +528,12 @@ Definition sort_aux (h : ht) : ht := match var with VPlain => h | _ => sort_by h
 (* ------------------------------------------------------------------ L1: PutAux and friends *)
 
 (* PutAux(hash, key, value, ..): returns the entry and the replaced value if any *)
-Definition put_aux (h : ht) (I : itab) (k v : Z) : ht * itab * positive * option Z :=
+(* EnsureTableAllocated(): a table without any slot (moved-from, or preallocated with 0) falls back
+   to the default capacity -- the repaired behaviour, see the C09 finding on zero-capacity tables *)
+Definition ensure_allocated (h : ht) : ht := if N.eqb (cap h) 0 then with_cap h dcap else h.
+
+Definition put_aux (h0 : ht) (I : itab) (k v : Z) : ht * itab * positive * option Z :=
+  let h := ensure_allocated h0 in
   match find_key h k with
   | Some e =>
       let old := match kv_of h e with Some kv => Some (snd kv) | None => None end in
